@@ -9,6 +9,7 @@ use serde_json::{json, Value as J};
 #[derive(Deserialize)] struct J1<'a> { s: &'a str, b: bool }
 #[derive(Deserialize)] struct J2 { id: u64, #[serde(default)] d: u8, neg: Option<i16> }
 #[derive(Deserialize)] struct J3 { x: String, y: String, z: String }
+#[derive(Deserialize)] struct J5 { c: char, oc: Option<char>, s: String }
 // cookie names over the RFC 6265 token alphabet that are not identifiers (serde rename)
 #[derive(Deserialize)] struct J4 { #[serde(rename = "session-id")] sid: String, #[serde(rename = "__Host-tok")] tok: Option<String>, #[serde(rename = "a.b!#$*+^_`|~")] odd: Option<u32> }
 
@@ -20,6 +21,7 @@ fn de(tid: u64, input: &str) -> J {
         2 => run!(J2, |v| json!({"struct": [["id", v.id.canon()], ["d", v.d.canon()], ["neg", v.neg.canon()]]})),
         3 => run!(J3, |v| json!({"struct": [["x", v.x.canon()], ["y", v.y.canon()], ["z", v.z.canon()]]})),
         4 => run!(J4, |v| json!({"struct": [["session-id", v.sid.canon()], ["__Host-tok", v.tok.canon()], ["a.b!#$*+^_`|~", v.odd.canon()]]})),
+        5 => run!(J5, |v| json!({"struct": [["c", v.c.canon()], ["oc", v.oc.canon()], ["s", v.s.canon()]]})),
         _ => json!({"outcome": "bad-tid"}),
     }
 }
@@ -32,17 +34,18 @@ mod served {
     use std::sync::Mutex;
     pub static SEEN: Mutex<Option<J>> = Mutex::new(None);
     macro_rules! schema { ($($t:ty),*) => {$( impl ohkami::openapi::Schema for $t { fn schema() -> impl Into<ohkami::openapi::schema::SchemaRef> { ohkami::openapi::object() } } )*} }
-    schema!(J0, J1<'_>, J2, J3, J4);
+    schema!(J0, J1<'_>, J2, J3, J4, J5);
     fn saw(v: J) -> &'static str { *SEEN.lock().unwrap() = Some(v); "ran" }
     async fn h0(Cookie(v): Cookie<J0>) -> &'static str { saw(json!({"struct": [["a", v.a.canon()], ["tok", v.tok.canon()], ["n", v.n.canon()]]})) }
     async fn h1(Cookie(v): Cookie<J1<'_>>) -> &'static str { saw(json!({"struct": [["s", v.s.canon()], ["b", v.b.canon()]]})) }
     async fn h2(Cookie(v): Cookie<J2>) -> &'static str { saw(json!({"struct": [["id", v.id.canon()], ["d", v.d.canon()], ["neg", v.neg.canon()]]})) }
     async fn h3(Cookie(v): Cookie<J3>) -> &'static str { saw(json!({"struct": [["x", v.x.canon()], ["y", v.y.canon()], ["z", v.z.canon()]]})) }
     async fn h4(Cookie(v): Cookie<J4>) -> &'static str { saw(json!({"struct": [["session-id", v.sid.canon()], ["__Host-tok", v.tok.canon()], ["a.b!#$*+^_`|~", v.odd.canon()]]})) }
+    async fn h5(Cookie(v): Cookie<J5>) -> &'static str { saw(json!({"struct": [["c", v.c.canon()], ["oc", v.oc.canon()], ["s", v.s.canon()]]})) }
     async fn it(req: &Request) -> &'static str { saw(json!(req.headers.Cookies().map(|(k, v)| json!([hex(k.as_bytes()), hex(v.as_bytes())])).collect::<Vec<_>>())) }
     /// GET `path` with `Cookie: input` through the real parser, router and extractor: {"ran", "status", "value"} or {"refused"} when the parser refuses the request
     pub fn get(path: &str, input: &[u8]) -> J {
-        thread_local! { static APP: ohkami::testing::TestingOhkami = { use ohkami::testing::Testing; Ohkami::new(("/0".GET(h0), "/1".GET(h1), "/2".GET(h2), "/3".GET(h3), "/4".GET(h4), "/it".GET(it))).test() }; }
+        thread_local! { static APP: ohkami::testing::TestingOhkami = { use ohkami::testing::Testing; Ohkami::new(("/0".GET(h0), "/1".GET(h1), "/2".GET(h2), "/3".GET(h3), "/4".GET(h4), "/5".GET(h5), "/it".GET(it))).test() }; }
         *SEEN.lock().unwrap() = None;
         let w = APP.with(|t| crate::apps::wire(t, "GET", path.as_bytes(), &[(b"Cookie".to_vec(), input.to_vec())], b""));
         let status = match &w { Ok(w) if w.len() >= 12 => std::str::from_utf8(&w[9..12]).ok().and_then(|s| s.parse::<u16>().ok()).unwrap_or(0), _ => 0 };
